@@ -17,7 +17,7 @@ use crate::util::*;
 
 use crate::optin_inproc as parts;
 
-fn guard<T>(f: impl FnOnce() -> T) -> Option<T> {
+pub fn guard<T>(f: impl FnOnce() -> T) -> Option<T> {
     std::panic::catch_unwind(std::panic::AssertUnwindSafe(f)).ok()
 }
 
@@ -90,6 +90,7 @@ pub fn cases(o: &mut Outcome, rng: &mut Rng, thorough: bool) {
     parts::try_cases(o, thorough);
     parts::tuple_cases(o, thorough);
     parts::paren_cases(o, thorough);
+    parts::vis_extern_cases(o);
     let _ = rng;
 }
 
